@@ -157,7 +157,7 @@ class Transport(object):
         return Address(self.connector.host, self.connector.port)
 
     def getHandle(self):
-        raise HarnessError('getHandle is not simulated (MD5 is out of scope)')
+        return _Handle(self.sim, self.connector)
 
     # --- internals
     def _lost(self, exc, by):
@@ -174,6 +174,27 @@ class Transport(object):
         finally:
             c.state = 'disconnected'
             self.sim._guard('clientConnectionLost', c.factory.clientConnectionLost, c, reason)
+
+
+class _Handle(object):
+    """the socket behind a transport, as far as yabgp touches it: setsockopt(IPPROTO_TCP, TCP_MD5SIG, struct tcp_md5sig).
+    Like the Linux kernel it refuses a key longer than TCP_MD5SIG_MAXKEYLEN (80) with EINVAL."""
+
+    def __init__(self, sim, connector):
+        self.sim = sim
+        self.connector = connector
+
+    def setsockopt(self, level, opt, value):
+        self.sim.log('setsockopt', self.connector.id, (level, opt, len(value) if hasattr(value, '__len__') else value))
+        if level == 6 and opt == 14 and isinstance(value, (bytes, bytearray)) and len(value) >= 132:
+            import errno
+            import struct as _s
+            keylen = _s.unpack('H', bytes(value[130:132]))[0]        # native order, as packed by the agent
+            if keylen > 80:
+                raise OSError(errno.EINVAL, 'Invalid argument')
+
+    def fileno(self):
+        return 1000 + self.connector.id
 
 
 class Connector(object):
